@@ -223,6 +223,10 @@ CATALOG = {
         "mk_0": (_v({}), False),
         "mk_a": (_v({"max_nfev": 200}), False),
         "mk_b": (_v({"max_nfev": 400}), False),
+        # the same number written as int / as float inside the dictionary
+        "mk_f_int": (_v({"factor": 10}), False),
+        "mk_f_float": (_v({"factor": 10.0}), False),
+        "mk_f_other": (_v({"factor": 50}), False),
     },
     "optimal_fit_edelta": {
         "e_off": (_v(False), False),
